@@ -113,7 +113,9 @@ class Side:
                     cs = f.read(20).hex()
                 self.sums[cs] = base
                 if base not in self.packs:
-                    self.packs[base] = self.groups_of(idx_names(os.path.join(pd, base + ".idx")), f"pack {base}")
+                    # git names a pack after its trailer checksum, dulwich after the hash of its object names
+                    self.packs[base] = [self.groups_of(idx_names(os.path.join(pd, base + ".idx")), f"pack {base}"),
+                                        "g" if base == "pack-" + cs else "d"]
 
 
 class Unprojectable(Exception):
@@ -123,7 +125,7 @@ class Unprojectable(Exception):
 def create(root):
     from dulwich.repo import Repo
     os.makedirs(root, exist_ok=True)
-    for name in ("r.git", "o.git"):
+    for name in ("r.git",):
         p = os.path.join(root, name)
         os.makedirs(p)
         r = Repo.init_bare(p)
@@ -276,7 +278,10 @@ def project(root, side, refs=("a", "b")):
     packs = {}
     for fn in names:
         if fn.endswith(".pack") and fn[:-5] + ".idx" in names:
-            packs[fn[:-5]] = side.groups_of(idx_names(os.path.join(pd, fn[:-5] + ".idx")), fn)
+            groups = side.groups_of(idx_names(os.path.join(pd, fn[:-5] + ".idx")), fn)
+            if fn[:-5] not in side.packs:
+                side.learn_packs(g)
+            packs[fn[:-5]] = [groups, side.packs[fn[:-5]][1]]
     st["packs"] = sorted(packs.values())
     st["pack_names"] = {k: v for k, v in packs.items()}
     pr = read_packed_refs(g) or {}
@@ -311,9 +316,9 @@ def project(root, side, refs=("a", "b")):
             base = nm[:-4]
             if base not in side.packs:
                 raise Unprojectable(f"midx names unknown pack {nm}")
-            ps.append(sorted(side.packs[base]))
+            ps.append(side.packs[base])
         listed = side.groups_of([h for h, _ in ents], "midx objects")
-        if sorted({i for p in ps for i in p}) != listed:
+        if sorted({i for p in ps for i in p[0]}) != listed:
             raise Unprojectable("midx object list differs from the packs it names")
         st["midx"] = {"on": True, "packs": sorted(ps)}
     else:
@@ -328,7 +333,7 @@ def project(root, side, refs=("a", "b")):
             src = side.sums.get(h["checksum"])
             if src is None:
                 raise Unprojectable(f"bitmap {fn} records unknown pack checksum")
-            bm.append({"at": sorted(side.packs[base]), "for": sorted(side.packs[src])})
+            bm.append({"at": side.packs[base], "for": side.packs[src]})
     st["bmp"] = sorted(bm, key=lambda x: (x["at"], x["for"]))
     vs = {idx_version(os.path.join(pd, b + ".idx")) for b in packs}
     st["idxv"] = 1 if vs == {1} else 2
@@ -387,11 +392,6 @@ def apply(root, side, act, args, who, w, opts, tref):
         else:
             r.refs[refname(rname)] = c.id
             done(r, cl)
-        o = Repo(O(root))
-        for x in (b, t, c):
-            o.object_store.add_object(x)
-        o.refs[b"refs/keep/%d" % i] = c.id        # the other repository keeps every commit alive
-        o.close()
     elif act == "SetRef":
         rname, c = args
         if who == "x" and opts % 2:
@@ -488,11 +488,20 @@ def apply(root, side, act, args, who, w, opts, tref):
                 if fn.endswith(".bitmap") or fn.endswith(".rev"):
                     os.remove(os.path.join(pd, fn))
     elif act in ("CopyMidx", "CopyCg"):
+        # the other repository: a fresh, fully packed clone holding every commit ever created here
         og = O(root)
-        if opts % 2:
+        shutil.rmtree(og, ignore_errors=True)
+        os.makedirs(og)
+        o = Repo.init_bare(og)
+        for i in sorted(side.ids):
+            c, t, b = make_group(i, [side.cid(p) for p in side.par[i]])
+            for x in (b, t, c):
+                o.object_store.add_object(x)
+            o.refs[b"refs/keep/%d" % i] = c.id
+        if (args[0] == "g") if act == "CopyMidx" else opts % 2:
+            o.close()
             git(og, "-c", "repack.writeBitmaps=false", "repack", "-a", "-d", "-q")
         else:
-            o = Repo(og)
             o.object_store.repack()
             o.close()
         side.learn_packs(og)
@@ -503,8 +512,8 @@ def apply(root, side, act, args, who, w, opts, tref):
                 o = Repo(og)
                 o.object_store.write_midx()
                 o.close()
-            shutil.copyfile(os.path.join(og, "objects", "pack", "multi-pack-index"),
-                            os.path.join(g, "objects", "pack", "multi-pack-index"))
+            _install(os.path.join(og, "objects", "pack", "multi-pack-index"),
+                     os.path.join(g, "objects", "pack", "multi-pack-index"))
         else:
             if opts & 2:
                 git(og, "commit-graph", "write", "--reachable", "--no-progress")
@@ -513,17 +522,18 @@ def apply(root, side, act, args, who, w, opts, tref):
                 o.object_store.write_commit_graph()
                 o.close()
             os.makedirs(os.path.join(g, "objects", "info"), exist_ok=True)
-            shutil.copyfile(os.path.join(og, "objects", "info", "commit-graph"),
-                            os.path.join(g, "objects", "info", "commit-graph"))
+            _install(os.path.join(og, "objects", "info", "commit-graph"),
+                     os.path.join(g, "objects", "info", "commit-graph"))
+        shutil.rmtree(og, ignore_errors=True)
     elif act == "CopyBmp":
         p, q = args
-        inv = {tuple(sorted(v)): k for k, v in project_pack_names(root, side).items()}
+        inv = {pkey(v): k for k, v in project_pack_names(root, side).items()}
         names_all = {}
         for k, v in side.packs.items():
-            names_all.setdefault(tuple(sorted(v)), []).append(k)
+            names_all.setdefault(pkey(v), []).append(k)
         pd = os.path.join(g, "objects", "pack")
-        src = [k for k in names_all[tuple(sorted(p))] if os.path.exists(os.path.join(pd, k + ".bitmap"))]
-        shutil.copyfile(os.path.join(pd, src[0] + ".bitmap"), os.path.join(pd, inv[tuple(sorted(q))] + ".bitmap"))
+        src = [k for k in names_all[pkey(p)] if os.path.exists(os.path.join(pd, k + ".bitmap"))]
+        _install(os.path.join(pd, src[0] + ".bitmap"), os.path.join(pd, inv[pkey(q)] + ".bitmap"))
     elif act == "Reindex":
         wr, v = args
         pd = os.path.join(g, "objects", "pack")
@@ -549,6 +559,18 @@ def apply(root, side, act, args, who, w, opts, tref):
         raise ValueError(act)
     side.learn_packs(g)
     side.save()
+
+
+def pkey(p):
+    """hashable form of a pack [groups, naming]"""
+    return (tuple(sorted(p[0])), p[1])
+
+
+def _install(src, dst):
+    """Put a copy of src at dst the way every real writer does: new file, renamed into place."""
+    tmp = dst + ".tmp-copy"
+    shutil.copyfile(src, tmp)
+    os.replace(tmp, dst)
 
 
 def project_pack_names(root, side):
@@ -737,14 +759,10 @@ def lowlevel(repo, side, model, root):
     out = []
     st = repo.object_store
     o2g = side.o2g()
-    present = set()
-    for p in model["packs"]:
-        present |= set(p)
-    present |= set(model["loose"])
     # bitmaps: a file sitting next to a pack it was not built for must not be accepted
-    names = {tuple(v): k for k, v in project_pack_names(root, side).items()}
+    names = {pkey(v): k for k, v in project_pack_names(root, side).items()}
     for b in model["bmp"]:
-        at = tuple(b["at"])
+        at = pkey(b["at"])
         if at not in names:
             continue
         for p in st.packs:
